@@ -3,5 +3,5 @@ CONSTANTS
   NStmt = 3
   Patterns <- PatQuick
   TailPatterns <- TailQuick
-  LeadModes <- LeadAll
-  TrailModes <- TrailAll
+  LeadModes <- LeadInts
+  TrailModes <- TrailInts
